@@ -16,6 +16,7 @@ import (
 )
 
 type Clause struct {
+	Local bool // local_ensures: not exported to callers
 	Props []string
 	Label string
 	Text  string
@@ -87,7 +88,7 @@ type Define struct {
 }
 
 var headRe = regexp.MustCompile(`^(func|interface|extern|fparam|functype|define|declare|lemma|inline|constglobal|guard|refcount|reflink|reftable|ownfield|ghostvar|axiom)\s+(.*)$`)
-var clauseRe = regexp.MustCompile(`^(requires|ensures|bridge_ensures|assumed_ensures|assumed_panic_ensures|panic_ensures|invariant|decreases|lemma)(\[[A-Za-z0-9, ]*\])?\s*(@[A-Za-z0-9_.\-]+)?\s+(.*)$`)
+var clauseRe = regexp.MustCompile(`^(requires|ensures|local_ensures|bridge_ensures|assumed_ensures|assumed_panic_ensures|panic_ensures|invariant|decreases|lemma)(\[[A-Za-z0-9, ]*\])?\s*(@[A-Za-z0-9_.\-]+)?\s+(.*)$`)
 
 // ParseContracts reads //@ lines from text (comment-only Go or .spec file).
 func ParseContracts(file, text, pkg string, out *ContractSet) error {
@@ -285,6 +286,11 @@ func ParseContracts(file, text, pkg string, out *ContractSet) error {
 			case "requires":
 				cur.Requires = append(cur.Requires, cl)
 			case "ensures":
+				cur.Ensures = append(cur.Ensures, cl)
+			case "local_ensures":
+				// proved against the body like ensures, but written over the
+				// function's own local variables: not used at call sites
+				cl.Local = true
 				cur.Ensures = append(cur.Ensures, cl)
 			case "bridge_ensures":
 				cur.BridgeEnsures = append(cur.BridgeEnsures, cl)
